@@ -97,6 +97,25 @@ def stream_strict(lines, op, expected):
 
 # ---- C08 ------------------------------------------------------------------------------------------
 
+def returned_without_cause(tr):
+    """run() returned although the script contains nothing that ends it: no transport fault, no DISCONNECT in either
+    direction, every handle and the Context alive"""
+    rr = tr.run_result()
+    if rr is None:
+        return None
+    if has(tr, "eof", "rerr", "rintr", "werr", "werr0", "wintr", "wblock", "dropctx", "drophandle", "reconnect", "hold"):
+        return None
+    if any(e.startswith("start ") and e.split()[3] == "disc" for e in tr.evs):
+        return None
+    for cn in connection_streams(tr):
+        inp = inbound(tr, cn)
+        if inp is None or any(p[0] >> 4 == 14 for _, p in inp):
+            return None
+    if rr[1].startswith("err") and not rr[1].startswith(("err SocketClosed", "err HandleClosed", "err Disconnected")):
+        return None          # a codec error: reported by rejected_wellformed
+    return "onlythen: run() returned %s at event %d; nothing in the script ends it (no DISCONNECT, no transport fault, handles alive)" % (rr[1][:40], rr[0])
+
+
 def rejected_wellformed(tr, what):
     """C07/C08/C09 cases deliver only packets built by the encoders of tools/mqtt.py (well formed by construction): run()
     giving up on one of them with a codec error leaves it, and everything after it, unacknowledged and undelivered"""
@@ -136,12 +155,37 @@ def c08(case, lines):
             if gotj != wantj:
                 return "acks: on connection %d the acknowledgements written %s differ from those due %s" % (j + 1, gotj[:6], wantj[:6])
         return None
+    if has(tr, "wintr") and not has(tr, "reconnect", "dropctx", "hold", "start"):
+        # a write that failed once with ErrorKind::Interrupted: whatever run() does about it, the bytes on the wire are a
+        # beginning of the acknowledgements due, in order - never a byte twice
+        conn = connection_streams(tr)[0]
+        inp = inbound(tr, conn)
+        start, _ = run_window(tr)
+        if inp is not None and start is not None:
+            due = bytearray()
+            for k, p in inp:
+                i = rx_info(p)
+                if k > start and i["t"] == 3 and i["qos"] in (1, 2):
+                    due += bytes([0x40 if i["qos"] == 1 else 0x50, 2, i["pid"] >> 8, i["pid"] & 255])
+                elif k > start and i["t"] == 6:
+                    due += bytes([0x70, 2, i["pid"] >> 8, i["pid"] & 255])
+            wrote = bytearray()
+            for k in sorted(tr.by):
+                if k > start:
+                    for r in tr.by[k]:
+                        if r.startswith("W "):
+                            wrote += M.unhex(r[2:])
+            if bytes(due[:len(wrote)]) != bytes(wrote):
+                return "acks: after an interrupted write the wire reads %s; the acknowledgements due are %s: the bytes written are not a beginning of them" % (M.hx(bytes(wrote[:24])), M.hx(bytes(due[:24])))
+        return None
     if tr.faulty or has(tr, "reconnect", "dropctx", "hold"):
         return None
     conn = connection_streams(tr)[0]
     inp, outp = inbound(tr, conn), outbound(tr, conn)
-    if inp is None or outp is None:
+    if inp is None:
         return None
+    if outp is None:
+        return "acks: what the client wrote while serving the connection is not a sequence of whole packets (a length field that does not match what follows it, or stray bytes)"
     start, end = run_window(tr)
     if start is None:
         return None
@@ -198,6 +242,11 @@ def c09(case, lines):
     if inp is None:
         return None
     start, end = run_window(tr)
+    outp9 = outbound(tr, conn)
+    for k, i in (outp9 or []):
+        if i["kind"] in ("pubrec", "pubcomp") and len(i["raw"]) > 4 and i["raw"][4] >= 128:
+            return "qos2: the %s for identifier %d written at event %d carries the failing reason code 0x%02x: to the broker the exchange has failed, it will not send PUBREL and may use the identifier for a new message, which the client would then take for a re-delivery" % (
+                i["kind"], i["pid"], k, i["raw"][4])
     if end is not None:
         return None
     awaiting = set()
@@ -633,6 +682,17 @@ def c14(case, lines):
                     want = {"disc": "disconnect", "ping": "pingreq", "sub": "subscribe", "unsub": "unsubscribe", "pub": "publish"}[sp["kind"]]
                     if outp is not None and not any(i["kind"] == want and kk >= fpk for kk, i in outp):
                         return "pending: operation %d (%s) reports success after the context was dropped although its packet was never written" % (op, sp["kind"])
+                    # ... and one that awaits an acknowledgement reports success only when that acknowledgement had arrived
+                    q_ = int(sp["args"].get("q", 0)) if sp["kind"] == "pub" else 0
+                    fin = {"sub": 9, "unsub": 11}.get(sp["kind"]) or ({1: 4, 2: 7}.get(q_) if sp["kind"] == "pub" else None)
+                    inp14 = inbound(tr, conn)
+                    if fin and outp is not None and inp14 is not None and not has(tr, "reconnect", "spin", "hold"):
+                        mine = [i for kk, i in outp if kk == fpk and i["kind"] == want and i.get("pid")]
+                        if len(mine) == 1:
+                            acks = [kk for kk, pk in inp14 if kk < dk and rx_info(pk)["t"] == fin and rx_info(pk)["pid"] == mine[0]["pid"]]
+                            if not acks:
+                                return "pending: operation %d (%s) reports success at event %d, after the context was dropped, although the %s for its identifier %d never arrived" % (
+                                    op, sp["kind"], k, {4: "PUBACK", 7: "PUBCOMP", 9: "SUBACK", 11: "UNSUBACK"}[fin], mine[0]["pid"])
             if p[0] == "E":
                 ended.add(int(p[1]))
     # operations started after the drop fail immediately with ContextExited
@@ -904,6 +964,9 @@ def c06_main(case, lines):
     if m:
         return m
     tr = Trace(case, lines)
+    w_ = returned_without_cause(tr)
+    if w_:
+        return w_ + ": the publishes outstanding never learn their outcome"
     if tr.faulty or has(tr, "reconnect", "dropctx"):
         return None
     conn = connection_streams(tr)[0]
@@ -1102,6 +1165,20 @@ def c15(case, lines):
                     ran_after = asked and (not has(tr, "hold") or any(e == "release" for e in tr.evs[asked[0]:]))
                     if asked and ran_after and asked[0] < len(tr.evs) - 1:
                         return "pubrel: the PUBREL of QoS 2 publish id %d was requested at event %d (poll after its PUBREC) but never written; its flow-control slot is never returned" % (i["pid"], asked[0])
+    # the late acknowledgement of an abandoned operation is absorbed silently: a PUBREC that refuses the message ends the
+    # exchange, whoever still listens - nothing is written in answer to it
+    if not has(tr, "reconnect", "dropctx", "spin") and not tr.faulty:
+        conn = connection_streams(tr)[0]
+        inp, outp = inbound(tr, conn), outbound(tr, conn)
+        if inp is not None and outp is not None:
+            for k, p in inp:
+                i = rx_info(p)
+                if i["t"] == 5 and i["reason"] >= 128:
+                    later_pub = [kk for kk, o in outp if o["kind"] == "publish" and o.get("pid") == i["pid"] and kk > k]
+                    for kk, o in outp:
+                        if o["kind"] == "pubrel" and o["pid"] == i["pid"] and kk >= k and not any(lp <= kk for lp in later_pub):
+                            return "absorbed: the PUBREC (reason 0x%02x) delivered at event %d ended the exchange of identifier %d, yet a PUBREL for it was written at event %d" % (
+                                i["reason"], k, i["pid"], kk)
     r8 = c08(case, lines) if "dropped-stream" in (case.get("tags") or []) else None
     if r8:
         return r8
